@@ -71,6 +71,15 @@ def check_C12(run):
         stage_judge_enum(run, res, "C12", name="judge_lex_json")
         res = stage_lex_json(run, 0, FULL_SYMS, random=500000, rlen=24, name="lex_json_random")
         stage_judge_enum(run, res, "C12", name="judge_lex_json_random")
+    # numbers whose JSON spelling has no decimal point or an exponent, negative zero, integers beyond int64 / 2^53
+    from parserfam import stage_texts
+    special = ["f:1e-07", "f:0.0000001", "f:6e21", "f:6e+21x", "f:100000000000000000000", "f:1e308", "f:[1e-07 TO 1]", "f:(1e-07 OR 2)",
+               "f:<2e-9", "f:>=6e21", "f:0.5 AND g:1.5e-7", "f:12345678901234567890", "f:[1 TO 123456789012]", "f:1.0", "f:-1.0", "f:[1.0 TO 2.0]",
+               "f:(1.0 OR 2)", "f:-0.0", "f:[-0.0 TO 1]", "f:[9007199254740993 TO *]", "f:[1 TO 12345678901234567890123]",
+               "f:9007199254740993", "f:(9007199254740993 OR 2)", "f:x~0", "f:x~1", "f:x~5", "f:x^1", "f:x^0.5", "f:x^3", "\"\"", "f:\"\"", "f:\" \"", "f:a\\*b", "f:\"/x/\"", "f:\"/\"",
+               "f:/a b/", "f:[\"a b\" TO \"c*\"]", "f:(\"a*\" OR b)", "f:\u00e9t\u00e9", "\u5b57:\u5b57*"]
+    res, _, _ = stage_texts(run, special, name="special_texts", with_json=True)
+    stage_judge_enum(run, res, "C12", name="judge_special")
     run.exhaustive = True
     run.notes.append("every expression Parse returns for: all trees to depth 2 over the leaf alphabet (incl. quoted wildcards, slash-delimited strings, "
                      "integer-valued floats, empty strings), sampled deeper trees and near misses (seed %d), every token sequence up to the bound "
